@@ -358,6 +358,124 @@ theorem unmap_only_mapped (ip : IP) (h : "::ffff:".toList.isPrefixOf ip.toList =
   simp only [h, Bool.false_and]
   rfl
 
+/-! ## Where the authentication settings come from (backend message, cache file)
+
+The settings a device is judged by are what the backend's `AuthenticationSettings` message said, whether the
+profile database has the device from the backend directly or from the cache file an earlier full
+synchronisation wrote.  The policy is stated on the *message* (`BackendPolicyMet`), with no converter inside. -/
+
+/-- The message's hash (if it has one) accepts the password. -/
+def MsgAccepts (a : MsgAuth) (pw : Str) : Prop := ∀ c, a.hash = some c → c pw = true
+
+/-- The authentication policy of the backend's message `m` for a device is met by the request: no message,
+no demand; `doh_auth_only` ⇒ DoH with a user and a password that the hash, if any, accepts; on DoH a request
+with userinfo has a password that the hash, if any, accepts. -/
+def BackendPolicyMet (s : Srv) (rq : Req) (m : Option MsgAuth) : Prop :=
+  ∀ a, m = some a →
+    (a.dohOnly = true → s.proto = .doh ∧ ∃ u pw, rq.userinfo = some (u, some pw) ∧ MsgAccepts a pw) ∧
+    (s.proto = .doh → ∀ u pw, rq.userinfo = some (u, pw) → ∃ pass, pw = some pass ∧ MsgAccepts a pass)
+
+/-- **cache_keeps_settings.**  Settings that are enabled survive the cache file unchanged — flags *and*
+password check, with or without a hash; disabled settings come back disabled and not DoH-only. -/
+theorem cache_keeps_settings (a : AuthSettings) :
+    (a.enabled = true → throughCache a = a) ∧
+    (a.enabled = false → (throughCache a).enabled = false ∧ (throughCache a).dohOnly = false) := by
+  obtain ⟨en, d, h⟩ := a
+  constructor
+  · intro he
+    simp only at he
+    subst he
+    cases h <;> rfl
+  · intro he
+    simp only at he
+    subst he
+    exact ⟨rfl, rfl⟩
+
+/-- **cache_keeps_backend_settings.**  Whatever the backend said about a device, a restart from the cache
+file yields exactly the settings the backend's message yields. -/
+theorem cache_keeps_backend_settings (src : Source) (m : Option MsgAuth) : settingsFrom src m = authOfMsg m := by
+  cases src
+  · rfl
+  · cases m with
+    | none => rfl
+    | some a => obtain ⟨d, h⟩ := a; cases h <;> rfl
+
+/-- The converted settings say what the message says. -/
+theorem authFrom_spec (src : Source) (m : Option MsgAuth) :
+    (authFrom src m).enabled = m.isSome ∧
+    (authFrom src m).dohOnly = (match m with | some a => a.dohOnly | none => false) ∧
+    ∀ pw, (authFrom src m).check pw = (match m with | some ⟨_, some c⟩ => c pw | _ => true) := by
+  unfold authFrom
+  rw [cache_keeps_backend_settings]
+  cases m with
+  | none => exact ⟨rfl, rfl, fun _ => rfl⟩
+  | some a => obtain ⟨d, h⟩ := a; cases h <;> exact ⟨rfl, rfl, fun _ => rfl⟩
+
+/-- **recognised_meets_backend_policy.**  A request is attributed to a device only if it meets the
+authentication policy of the backend's message for that device — from whichever source (backend, cache
+file) the profile database has the device. -/
+theorem recognised_meets_backend_policy (s : Srv) (db : DB) (rq : Req) (p : Profile) (d : Device)
+    (src : Source) (m : Option MsgAuth) (hd : d.auth = authFrom src m) (h : find s db rq = .ok p d) :
+    BackendPolicyMet s rq m := by
+  have hmet := (recognised_only_own_id s db rq p d h).2.2
+  obtain ⟨hen, hdo, hck⟩ := authFrom_spec src m
+  intro a ha
+  subst ha
+  rw [← hd] at hen hdo hck
+  have hmet := hmet hen
+  have hacc : ∀ pw, d.auth.check pw = true → MsgAccepts a pw := by
+    intro pw hpw c hc
+    have := hck pw
+    obtain ⟨ad, ah⟩ := a
+    simp only at hc
+    subst hc
+    simp only at this
+    rw [← this]; exact hpw
+  constructor
+  · intro hdoh
+    have hd' : d.auth.dohOnly = true := by rw [hdo]; exact hdoh
+    obtain ⟨hp, u, pw, hu, hc⟩ := hmet.1 hd'
+    exact ⟨hp, u, pw, hu, hacc pw hc⟩
+  · intro hp u pw hu
+    obtain ⟨pass, hpass, hc⟩ := hmet.2 hp u pw hu
+    exact ⟨pass, hpass, hacc pass hc⟩
+
+/-- **backend_doh_only_never_elsewhere.**  A device whose backend message says `doh_auth_only` — with or
+without a password hash — is recognised only on DoH and only with a user and a password in the request,
+also after a restart from the cache file. -/
+theorem backend_doh_only_never_elsewhere (s : Srv) (db : DB) (rq : Req) (p : Profile) (d : Device)
+    (src : Source) (a : MsgAuth) (hd : d.auth = authFrom src (some a)) (hdo : a.dohOnly = true)
+    (h : find s db rq = .ok p d) :
+    s.proto = .doh ∧ ∃ u pw, rq.userinfo = some (u, some pw) ∧ MsgAccepts a pw :=
+  ((recognised_meets_backend_policy s db rq p d src (some a) hd h) a rfl).1 hdo
+
+/-- **backend_bad_password_never_recognised.**  On DoH, userinfo without a password, or with one the
+message's hash rejects, never yields recognition of a device that has an authentication message. -/
+theorem backend_bad_password_never_recognised (s : Srv) (db : DB) (rq : Req) (p : Profile) (d : Device)
+    (src : Source) (a : MsgAuth) (c : Str → Bool) (hd : d.auth = authFrom src (some a)) (hc : a.hash = some c)
+    (hp : s.proto = .doh) (u : Str) (pw : Option Str) (hu : rq.userinfo = some (u, pw))
+    (hbad : ∀ pass, pw = some pass → c pass = false) :
+    find s db rq ≠ .ok p d := by
+  intro h
+  obtain ⟨pass, hpass, hacc⟩ := ((recognised_meets_backend_policy s db rq p d src (some a) hd h) a rfl).2 hp u pw hu
+  have := hacc c hc
+  rw [hbad pass hpass] at this
+  cases this
+
+/-- A cache writer that leaves out settings without a password hash (a seeded change) loses the
+DoH-only demand of a password-less DoH-only device: why `cacheOfAuth` writes enabled settings
+"whether or not there is a hash". -/
+def cacheOfAuthHashedOnly (a : AuthSettings) : Option MsgAuth :=
+  match a.hash with
+  | .allow => none
+  | .bcrypt c => if !a.enabled then none else some { dohOnly := a.dohOnly, hash := some c }
+
+theorem hashed_only_cache_counterexample :
+    ¬ ∀ m, (authOfMsg (cacheOfAuthHashedOnly (authOfMsg m))).dohOnly = (authOfMsg m).dohOnly := by
+  intro h
+  have := h (some { dohOnly := true, hash := none })
+  cases this
+
 /-! ## Non-vacuity: concrete instances satisfying the hypotheses -/
 
 section Examples
@@ -473,6 +591,25 @@ example : (exposed (serve gateOpen true (exSrv .dns) (exDB false false) { exReq 
 /-- DNSCrypt: the same request that is recognised on plain DNS is anonymous. -/
 example : isOK (find (exSrv .dnscrypt) (exDB false false) (exReq none "" "")) = false := by decide
 
+/-- A DoH-only device without a password hash, read back from the cache file: recognised over DoH with
+any password, refused over DoT and over DoH without credentials (hypotheses of
+`recognised_meets_backend_policy` / `backend_doh_only_never_elsewhere`). -/
+def exMsgDB (src : Source) (m : Option MsgAuth) : DB where
+  byDeviceID i := if i = ['d', 'e', 'v', '1'] then
+      .found exProf { id := ['d', 'e', 'v', '1'], auth := authFrom src m } else .devNotFound
+  byHumanID _ _ := .devNotFound
+  createAuto _ _ _ := .devNotFound
+  byLinkedIP _ := .devNotFound
+  byDedicatedIP _ := .devNotFound
+
+example : isOK (find (exSrv .doh) (exMsgDB .cacheFile (some ⟨true, none⟩))
+      (exReq (some (['d', 'e', 'v', '1'], some ['x'])) "/dns-query" "")) = true ∧
+    isAuthFail (find (exSrv .dot) (exMsgDB .cacheFile (some ⟨true, none⟩)) (exReq none "" "dev1.d.example")) = true ∧
+    isAuthFail (find (exSrv .doh) (exMsgDB .cacheFile (some ⟨true, none⟩)) (exReq none "/dns-query/dev1" "")) = true ∧
+    isOK (find (exSrv .dot) (exMsgDB .cacheFile none) (exReq none "" "dev1.d.example")) = true ∧
+    isAuthFail (find (exSrv .doh) (exMsgDB .backend (some ⟨false, some (fun x => x = ['p', 'w'])⟩))
+      (exReq (some (['d', 'e', 'v', '1'], some ['x'])) "/dns-query" "")) = true := by decide
+
 end Examples
 
 /-! ## The label of a TLS server name (fixed defect)
@@ -538,6 +675,13 @@ end Agd.Device
 #print axioms Agd.Device.unmap_only_mapped
 #print axioms Agd.Device.sni_orig_counterexample
 #print axioms Agd.Device.sni_label_is_first_label
+#print axioms Agd.Device.cache_keeps_settings
+#print axioms Agd.Device.cache_keeps_backend_settings
+#print axioms Agd.Device.authFrom_spec
+#print axioms Agd.Device.recognised_meets_backend_policy
+#print axioms Agd.Device.backend_doh_only_never_elsewhere
+#print axioms Agd.Device.backend_bad_password_never_recognised
+#print axioms Agd.Device.hashed_only_cache_counterexample
 #print axioms Agd.Tie.TrC03.translation_complete
 #print axioms Agd.Tie.TrC03.supportsDeviceID_tr
 #print axioms Agd.Tie.TrC03.supportsDeviceID_iff
@@ -591,3 +735,10 @@ end Agd.Device
 #print axioms Agd.Tie.TrC03.converted_dohOnly_implies_enabled
 #print axioms Agd.Tie.TrC03.dohPassword_nonnil
 #print axioms Agd.Tie.TrC03.fcAuth_roundtrip
+#print axioms Agd.Tie.TrC03.pbAuth_toInternal_model
+#print axioms Agd.Tie.TrC03.fcAuth_toInternal_model
+#print axioms Agd.Tie.TrC03.fcAuthToProtobuf_model
+#print axioms Agd.Tie.TrC03.fcAuthToProtobuf_written_iff
+#print axioms Agd.Tie.TrC03.fcDohPasswordToProtobuf_spec
+#print axioms Agd.Tie.TrC03.fcDohPasswordToInternal_spec
+#print axioms Agd.Tie.TrC03.fcDohPassword_roundtrip
